@@ -32,6 +32,7 @@ pub fn run(args: &Args, r: &mut Report) {
         "c11-scheduled-operation-survives-handle-drop",
         "c11-check-runs-with-decided-options",
         "c11-request-answered-despite-ready-timers",
+        "c11-abandoned-on-demand-request-still-upgrades-reboot-question",
     ]);
     let n = args.budget(40_000, 400_000);
     for i in 0..n {
@@ -350,7 +351,8 @@ pub fn run(args: &Args, r: &mut Report) {
         }
         lock(&w).script.until_timers_ready = true;
         // let the first ping round start (its ping timer is still a gate), then ask
-        let od = rng.bool();
+        let abandon = rng.chance(1, 3);
+        let od = abandon || rng.bool();
         let mut asked: Option<usize> = None;
         let mut rounds = 0u32;
         let mut answered_after: Option<u32> = None;
@@ -360,7 +362,15 @@ pub fn run(args: &Args, r: &mut Report) {
                 break;
             }
             if let Some(q) = asked {
-                if !d.pending_ctl().contains(&q) {
+                if abandon {
+                    // the caller gave up on its on-demand request: the machine must still act on it
+                    let g = lock(&d.w);
+                    let send_seq = g.log.iter().find(|x| matches!(&x.ev, Ev::CtlSend { req, .. } if *req == q)).map(|x| x.seq).unwrap_or(0);
+                    if g.log.iter().any(|x| x.seq > send_seq && matches!(x.ev, Ev::PolicyRebootAllowed { on_demand: true, .. })) {
+                        answered_after = Some(rounds);
+                        break;
+                    }
+                } else if !d.pending_ctl().contains(&q) {
                     answered_after = Some(rounds);
                     break;
                 }
@@ -370,14 +380,18 @@ pub fn run(args: &Args, r: &mut Report) {
             let pick = gates.iter().copied().find(|g| !matches!(d.gate_kind(*g), GateKind::Timer(TimerSpec::For(_))));
             let Some(g) = pick else { break };
             if asked.is_none() && rounds >= 2 {
-                asked = d.send_control(0, od);
+                asked = if abandon { d.send_and_abandon(0, true) } else { d.send_control(0, od) };
             }
             d.release(g);
             rounds += 1;
         }
-        r.eval(crate::common::shape_of(&["ready-ping-timers", if od { "on-demand" } else { "scheduled" }]), true);
+        r.eval(crate::common::shape_of(&["ready-ping-timers", if od { "on-demand" } else { "scheduled" }, if abandon { "abandoned" } else { "awaited" }]), true);
         let mut m = Mon::default();
-        if asked.is_some() {
+        if asked.is_some() && abandon {
+            m.judge("c11-abandoned-on-demand-request-still-upgrades-reboot-question", answered_after.is_some(), "", || {
+                format!("an on-demand request whose caller gave up was made during the reboot wait; after {} further rounds the policy had not been asked the on-demand reboot question", rounds)
+            });
+        } else if asked.is_some() {
             m.judge("c11-request-answered-despite-ready-timers", answered_after.is_some(), "", || {
                 format!("a request made during the reboot wait was still unanswered after {} ping rounds with an always-ready ping timer", rounds)
             });
